@@ -411,6 +411,17 @@ func runCheck(prop, tier string, seed int64, workers int) int {
 		return runE2(rep, p, prop, tier)
 	}
 	specs := e1Specs(prop, tier)
+	// development aid for trial runs on a scratch checkout (VERIF_SRC sets VERIF_OUT_DIR, so /verif/evidence is never written
+	// from a narrowed run): VERIF_DEV_SPEC=<substring> keeps only the explorations whose name contains it
+	if f := os.Getenv("VERIF_DEV_SPEC"); f != "" && os.Getenv("VERIF_OUT_DIR") != "" {
+		kept := []engines.E1Spec{}
+		for _, sp := range specs {
+			if strings.Contains(sp.Name, f) {
+				kept = append(kept, sp)
+			}
+		}
+		specs = kept
+	}
 	if specs == nil {
 		fmt.Fprintln(os.Stderr, "no check defined for", prop)
 		return 2
